@@ -58,6 +58,9 @@ def canon(env, v, depth=0):
         if k[1:].isdigit():
             return ('obj', 'param', int(k[1:]))
         return ('obj', 'mem', k)
+    if v[0] == 'mem' and len(v) == 2 and isinstance(v[1], str):
+        # the (unknown) content of a place reached through a reference: the same object as a borrow of that place
+        return canon(env, ('ref', v[1]), depth + 1)
     if v[0] == 'deref':
         c = canon(env, v[1], depth + 1)
         if c and c[0] == 'obj' and c[1] == 'param':
